@@ -596,6 +596,7 @@ type Options struct {
 	PrintSep          string
 	Sync              bool
 	History           *History
+	historyMax        int
 	Header            []string
 	HeaderLines       int
 	HeaderFirst       bool
@@ -2175,10 +2176,12 @@ func optString(arg string, prefix string) (bool, string) {
 
 func parseOptions(index *int, opts *Options, allArgs []string) error {
 	var err error
-	var historyMax int
-	if opts.History == nil {
+	// --history-size may come from an earlier source (options file, $FZF_DEFAULT_OPTS) than --history
+	historyMax := opts.historyMax
+	if historyMax == 0 {
 		historyMax = defaultHistoryMax
-	} else {
+	}
+	if opts.History != nil {
 		historyMax = opts.History.maxSize
 	}
 	setHistory := func(path string) error {
@@ -2194,6 +2197,7 @@ func parseOptions(index *int, opts *Options, allArgs []string) error {
 		if historyMax < 1 {
 			return errors.New("history max must be a positive integer")
 		}
+		opts.historyMax = historyMax
 		if opts.History != nil {
 			opts.History.maxSize = historyMax
 		}
